@@ -13,6 +13,11 @@ var verifMapSeed uint64
 //go:linkname verifSelectSeq runtime.verifSelectSeq
 var verifSelectSeq uint64
 
+//go:linkname verifPools sync.verifPools
+var verifPools bool
+
+func init() { verifPools = true }
+
 func setMapSeed(s uint64) {
 	verifSelectSeq = 0
 	if s == 0 {
